@@ -131,7 +131,7 @@ theorem C10_pass_clean_reachable {σ σ' : State S} (hr : Reachable σ) (v : Str
     check (`ShapeOK`; see C01), any list of passes (roots and seeds of the roots' shapes) leaves on any leaf `ℓ`
     its starting gradient plus the sum of the path sums of the individual passes, with `Λ` = the stored
     closures' own answers — no assumption about the operations — and ends clean. -/
-theorem C10_additive_stored_closures [AddLaws S] [MulLaws S] {σ : State S} (g : Good σ) (hs : ShapeOK σ)
+theorem C10_additive_stored_closures [AddLaws S] [MulLaws S] [CommLaws S] {σ : State S} (g : Good σ) (hs : ShapeOK σ)
     (ℓ j : Nat) (hleaf : σ.graph.kids ℓ = []) (keep : Bool) (ps : List (Nat × Tensor S))
     (hroots : ∀ p ∈ ps, p.1 < σ.nodes.size) (hshape : ∀ p ∈ ps, Shaped (σ.dimsOf p.1) p.2)
     (hg : ∀ t, σ.estate.grad ℓ = some t → Shaped (σ.dimsOf ℓ) t) (e : EState S)
